@@ -50,6 +50,10 @@ call can keep them.
         break: _find_nodes takes `children[1]` of the simple_stmt (the newline) for the returned expression
   extract-function-no-output-variable               the selection binds no name and does not end in `return`:
         `return ` / ` = extracted()` (SyntaxError)
+  extract-function-nested-scope-name                the selection contains a lambda / local def / comprehension /
+        local class: the names of that nested scope (its parameters, its variables) are looked up in the scope of
+        the enclosing function, found nowhere and made parameters (and outputs) of the new function; the call
+        site reads a name that does not exist (NameError)
   extract-function-break-continue-leaves-selection  `break` / `continue` whose loop is outside the selection
         is moved into the new function (SyntaxError)
 """
@@ -85,6 +89,21 @@ def selections(src, max_run=4):
             return 'expr'
         return st.type.replace('_stmt', '')
 
+    def inside_words(stmts):
+        """which jump / scope keywords occur anywhere in the run (at any nesting depth), in text order, and
+        `loop` for every nested for / while: the part of the domain `_check_for_non_extractables` decides on"""
+        found = []
+        leaf = stmts[0].get_first_leaf()
+        end = stmts[-1].end_pos
+        while leaf is not None and leaf.start_pos < end:
+            if leaf.type == 'keyword' and leaf.value in ('break', 'continue', 'return', 'yield', 'for', 'while',
+                                                         'def', 'class', 'lambda'):
+                w = 'loop' if leaf.value in ('for', 'while') else leaf.value
+                if len(found) < 12:
+                    found.append(w)
+            leaf = leaf.get_next_leaf()
+        return found
+
     def suites(node, depth, func):
         for c in getattr(node, 'children', []):
             if c.type == 'suite':
@@ -101,6 +120,7 @@ def selections(src, max_run=4):
                             continue
                         out.append({'start': list(ss[i].start_pos), 'until': list(ss[j].end_pos), 'func': func,
                                     'kinds': ks, 'depth': depth, 'n': j - i + 1,
+                                    'inside': inside_words(ss[i:j + 1]),
                                     'ends_return': ks[-1] == 'return',
                                     'last': j == len(ss) - 1})
                 suites(c, depth + 1, func)
@@ -134,6 +154,14 @@ def exception_leaves(lines, sel):
         if first <= at <= last and not (nxt is not None and first <= nxt <= last):
             return True
     return False
+
+
+class _Budget(BaseException):
+    pass
+
+
+LINE_BUDGET = 20000
+BIT_BUDGET = 10000000
 
 
 class Runner:
@@ -176,6 +204,25 @@ class Runner:
                     lines.add(frame.f_lineno)
                     return local
                 return None
+        if tracer is None:
+            # a refactored program may loop for ever (a loop counter that is not handed back): line budget
+            left = [LINE_BUDGET]
+
+            def blocal(frame, event, arg):
+                if event == 'line':
+                    left[0] -= 1
+                    if left[0] < 0:
+                        raise _Budget()
+                    # a loop that does not end may square a number in every round: stop before the arithmetic
+                    # takes minutes (no generated original comes near this size)
+                    if left[0] % 8 == 0:
+                        for v in frame.f_locals.values():
+                            if type(v) is int and v.bit_length() > BIT_BUDGET:
+                                raise _Budget()
+                return blocal
+
+            def tracer(frame, event, arg):
+                return blocal if frame.f_code.co_filename == '<flow>' else None
         old = sys.gettrace()
         try:
             fn = eval(entry, self.g)
@@ -188,6 +235,9 @@ class Runner:
             return ['ok', repr(v)], lines
         except RecursionError:
             return ['exc', 'RecursionError', '', '', 0], lines
+        except _Budget:
+            return ['exc', 'Budget', 'more than %d lines executed or an int of more than %d bits'
+                    % (LINE_BUDGET, BIT_BUDGET), '', 0], lines
         except Exception as e:
             tb = traceback.extract_tb(e.__traceback__)
             where = tb[-1].name if tb else ''
@@ -384,6 +434,8 @@ class Unbound:
             if isinstance(s, ast.AnnAssign) and s.value is None:
                 return state
             return False if self.binds(s) else state
+        if isinstance(s, (ast.FunctionDef, ast.ClassDef)):
+            return False if s.name == self.name else state
         if isinstance(s, ast.Return):
             return None
         if isinstance(s, ast.Break):
@@ -444,6 +496,25 @@ class Unbound:
                 return False if any(self.binds(x) for x in s.finalbody) else fin_in
             return out
         raise AssertionError(s)
+
+
+def _own_scope_stores(stmts):
+    """names bound by these statements in the scope they belong to (not in a scope nested in them)"""
+    out = set()
+
+    def rec(n):
+        if isinstance(n, (ast.FunctionDef, ast.AsyncFunctionDef, ast.ClassDef)):
+            out.add(n.name)
+            return
+        if isinstance(n, (ast.Lambda, ast.ListComp, ast.SetComp, ast.DictComp, ast.GeneratorExp)):
+            return
+        if isinstance(n, ast.Name) and isinstance(n.ctx, ast.Store):
+            out.add(n.id)
+        for c in ast.iter_child_nodes(n):
+            rec(c)
+    for s_ in stmts:
+        rec(s_)
+    return out
 
 
 def _find_run(fn, first, last):
@@ -542,6 +613,24 @@ def analyse(src, request):
                         return True
         return False
     facts['loose_jump'] = loose(sel, False)
+    # names that belong to a scope nested in the selection (parameters of a lambda / local def, targets of a
+    # comprehension, names bound in a local class body or def body), and the names of the function's own scope
+    nested = set()
+    for top in sel:
+        for n in ast.walk(top):
+            if isinstance(n, (ast.Lambda, ast.FunctionDef, ast.AsyncFunctionDef)):
+                a = n.args
+                nested |= {x.arg for x in a.args + a.kwonlyargs + a.posonlyargs}
+                nested |= {x.arg for x in (a.vararg, a.kwarg) if x is not None}
+            if isinstance(n, (ast.FunctionDef, ast.AsyncFunctionDef, ast.ClassDef)):
+                for b in n.body:
+                    nested |= _stores(b)
+            if isinstance(n, (ast.ListComp, ast.SetComp, ast.DictComp, ast.GeneratorExp)):
+                for g in n.generators:
+                    nested |= _stores(g.target)
+    facts['nested_scope_names'] = nested
+    facts['own_scope_names'] = {a.arg for a in best.args.args + best.args.kwonlyargs + best.args.posonlyargs} \
+        | _own_scope_stores(best.body)
     facts['ends_return'] = isinstance(sel[-1], ast.Return)
     return facts
 
@@ -602,6 +691,15 @@ def flow_shape(src, request, stream, observed, new_name='extracted_1'):
         return None
     new = (observed or {}).get('new_outcome')
     name, where = failure_name(new)
+    if new and new[0] == 'exc' and new[1] == 'Budget' and not f['ends_return'] \
+            and (f['needed_out'] - f['later_sibling_uses']):
+        # the loop around the selection does not end: a name the selection binds (the counter) is needed by
+        # the next iteration and not handed back
+        return 'extract-function-output-used-outside-own-suite'
+    if name is not None and name in f['nested_scope_names'] and name not in f['own_scope_names']:
+        # the name the new program misses is no name of the function's scope at all: it belongs to a scope
+        # nested in the selection (lambda / local def parameter, comprehension variable, class body)
+        return 'extract-function-nested-scope-name'
     if new and new[0] == 'exc' and name is None:
         return None                 # some other exception: no rule
     if name is not None and where == new_name:
@@ -678,8 +776,19 @@ def pick_selections(rng, sels, k):
     """a weighted sample without replacement: runs with compound statements and nested runs first"""
     def weight(s):
         w = 1.0
-        if any(x in ('if', 'for', 'try') for x in s['kinds']):
+        if any(x in ('if', 'for', 'try', 'while') for x in s['kinds']):
             w += 3.0
+        ins = s.get('inside', [])
+        if 'break' in ins or 'continue' in ins:
+            # jumps inside the run: next to / behind / inside nested loops
+            w += 1.5
+            if 'loop' in ins:
+                w += 2.5
+                first_jump = min(ins.index(x) for x in ('break', 'continue') if x in ins)
+                if 'loop' in ins[:first_jump] and s['depth'] > 0:
+                    w += 3.0        # a nested block whose run has a jump behind a loop
+        if 'def' in ins or 'lambda' in ins or 'class' in ins:
+            w += 1.0
         if s['depth'] > 0:
             w += 1.0
         if s['n'] > 1:
@@ -728,6 +837,8 @@ def check_selection(src, entry, sel, arg_texts, old_runs, rng_extra=None):
             k = ('value',) if newo[0] == 'ok' else (newo[1], failure_name(newo)[0] or newo[2], newo[3], newo[4])
             if k not in seen and len(seen) < 6:
                 seen[k] = {'args': a, 'old_outcome': old, 'new_outcome': newo}
+            if newo[0] == 'exc' and newo[1] == 'Budget':
+                break               # a loop that does not end: one witness is enough
     if seen:
         return {'status': 'differs', 'new_code': new, 'failures': list(seen.values())}
     return {'status': 'same'}
